@@ -151,6 +151,7 @@ class InputDialectTORCH(InputDialect):
 
 class GlobalIngestData(object):
     _jobmap = None
+    _ids_in_use = {}
 
     def __new__(cls):
         if not hasattr(cls, '_instance'):
@@ -159,8 +160,17 @@ class GlobalIngestData(object):
         return cls._instance
 
     @classmethod
+    def new_input_set(cls) -> None:
+        # job ids are unique among the inputs of one MultifileIngest, independent of earlier ones
+        cls._ids_in_use = {}
+
+    @classmethod
     def add_job_info(cls, source_uri: str, data_dialect: InputDialect = None) -> int:
         jobhash = zlib.crc32(str(source_uri).encode()) % 10000
+        # different inputs that are ingested together must not share a job id: take the next free one
+        while len(cls._ids_in_use) < 10000 and cls._ids_in_use.get(jobhash, str(source_uri)) != str(source_uri):
+            jobhash = (jobhash + 1) % 10000
+        cls._ids_in_use[jobhash] = str(source_uri)
         # always (re)register: an entry left by an earlier run of this process for a different
         # path with the same id must not name the inputs of the current run
         cls._jobmap[jobhash] = (Path(source_uri).name, data_dialect)
